@@ -54,8 +54,12 @@ def gen_name(rng):
     k = rng.random()
     if k < 0.5:
         return rng.choice(["add", "get_data", "x", "Method9", "ping", "resolve", "call", "result"])
-    if k < 0.75:
+    if k < 0.7:
         return ".".join(rng.choice(["ns", "a", "b", "sub", "x1", "Method9"]) for _ in range(rng.randint(2, 3)))
+    if k < 0.76:
+        # later segments named like attributes a method-proxy object might have
+        return rng.choice(["user", "mail", "svc"]) + "." + ".".join(
+            rng.choice(["name", "send", "close", "transport", "call", "encoding", "verbose"]) for _ in range(rng.randint(1, 2)))
     return rng.choice(NAME_PARTS)
 
 
@@ -186,6 +190,8 @@ def gen_c01(rng):
             "methods": methods, "clients": clients, "lifecycle": "serve"}
     if instance:
         prog["instance"] = instance
+        if rng.random() < 0.2:
+            prog["instance_falsy"] = True  # the registered object is "empty" (its truth value is False)
     if rng.random() < 0.15:
         prog["debug_log"] = True
     if kind != "dispatcher" and rng.random() < 0.1:
@@ -722,8 +728,8 @@ def gen_c13_first_use(rng):
 def gen_c13_small(rng):
     """Few short concurrent dispatcher threads: every pre-emption point is likely to be tried."""
     sv = {"kind": "dispatcher", "family": "tcp", "version": rng.choice([2.0, 2.0, 1.0]), "handlers": rng.random() < 0.3}
-    methods = {"echo": {"kind": "echo"}, "fail": {"kind": "fail"}, "sub": {"kind": "sub"}, "bad": {"kind": "baddump"},
-               "rej": {"kind": "subrejected"}}
+    methods = {"echo": {"kind": "echo"}, "fail": {"kind": "fail"}, "sub": {"kind": "sub"},
+               "bad": {"kind": rng.choice(["baddump", "baddump-lookup", "selfref"])}, "rej": {"kind": "subrejected"}}
     clients = []
     for ci in range(rng.randint(2, 3)):
         ops = []
@@ -734,6 +740,7 @@ def gen_c13_small(rng):
                 '{"method": "%s", "params": ["%s"], "id": "%s"}' % (m, tok, tok),
                 '{"method": "%s", "params": ["%s"], "id": "%s"}' % (m, tok, tok),
                 '{"jsonrpc": "2.0", "method": "%s", "params": ["%s"], "id": "%s"}' % (m, tok, tok),
+                '{"jsonrpc": %s, "method": "%s", "params": ["%s"], "id": "%s"}' % (rng.choice(["null", '""', "0", "false", "2", '"1.0"']), m, tok, tok),
             ])])
         clients.append({"version": None, "history": False, "ops": ops})
     prog = {"server": sv, "net": {"seg": "whole", "delay": 0}, "methods": methods, "clients": clients, "lifecycle": "serve",
@@ -759,7 +766,8 @@ def gen_c13_full(rng):
     elif cd < 0.3:
         sv["custom_dispatch"] = "instance"
     methods = {"echo": {"kind": "echo"}, "fail": {"kind": "fail"}, "two": {"kind": "two"}, "fault": {"kind": "fault"},
-               "slow": {"kind": "slow", "d": rng.choice([0.25, 0.5, 1.0])}, "sub": {"kind": "sub"}, "bad": {"kind": "baddump"},
+               "slow": {"kind": "slow", "d": rng.choice([0.25, 0.5, 1.0])}, "sub": {"kind": "sub"},
+               "bad": {"kind": rng.choice(["baddump", "baddump-lookup", "selfref"])},
                "err": {"kind": "sharedfault"}, "rej": {"kind": "subrejected"}, "quit": {"kind": "exit"}}
     names = ["echo", "echo", "fail", "nope", "two", "slow", "slow", "fault", "sub", "bad", "err", "rej", "sub"]
     if not sv.get("custom_dispatch"):
@@ -786,6 +794,7 @@ def gen_c13_full(rng):
                     '{"method": "%s", "params": ["%s"], "id": "%s"}' % (m, tok, tok),
                     '{"jsonrpc": "2.0", "method": "%s", "params": ["%s"], "id": "%s"}' % (m, tok, tok),
                     '{"method": "%s", "params": ["%s"], "id": 7}' % (m, tok),
+                    '{"jsonrpc": %s, "method": "%s", "params": ["%s"], "id": "%s"}' % (rng.choice(["null", '""', "0", "false", "2", '"1.0"']), m, tok, tok),
                     '[{"method": "%s", "params": ["%se0"], "id": 1}, {"jsonrpc": "2.0", "method": "echo", "params": ["%se1"], "id": 2}]' % (m, tok, tok),
                     '{"method": 5, "id": 3}', "nonsense", "[]", '{"jsonrpc": "2.0", "method": "%s", "params": 7, "id": 2}' % m,
                 ])])
